@@ -126,6 +126,22 @@ class Prop(BaseProp):
                 if it.impl is not None and it.impl.doc is None and rng.random() < 0.5:
                     it.impl.doc = mkdoc(rng, it.impl.uid) or [f"{{L{it.impl.uid}.0}} implementation text"]
                     doc_impls.append(it.impl)
+        # settings that act on signatures only (parameter-name strip patterns), together with doc text that mentions the raw
+        # parameter names: the text must still arrive verbatim
+        st_in = {}
+        if idx % 3 == 1:
+            pat = rng.choice(["^p", "Z\\d+$", "^pN", "N"])
+            st_in = {"function_parameter_name_strip_regex": pat, "macro_parameter_name_strip_regex": rng.choice([pat, "^p"]),
+                     "member_parameter_name_strip_regex": rng.choice(["", pat])}
+            res.count("cases_with_parameter_strip_patterns")
+            for it in mod.walk():
+                ps = it.gt.get("params") or []
+                if it.doc and ps and it.kind != "dangling":
+                    ks = [k for k, t in enumerate(it.doc) if LINE_ID.search(t)]
+                    for k in rng.sample(ks, min(len(ks), 2)):
+                        pn = rng.choice(ps)
+                        it.doc[k] = it.doc[k] + rng.choice([f" uses {pn}", f" ${{{pn}}} and {pn}_x", f" :param {pn}: text"])
+                        res.count("doc_lines_naming_a_parameter")
         lay = Layout(rng, comments=rng.choice([0.0, 0.2]), wild=rng.choice([0.0, 0.5, 0.9]), case="random", docforms=rng.choice([0.0, 0.0, 0.3]))
         if mod.module_doc is not None:
             lay_ind = rng.choice(["", "", " ", "  ", "\t", "    "])
@@ -151,7 +167,7 @@ class Prop(BaseProp):
             res.see("line_classes", c)
         res.count("nonascii_lines", classes.count("nonascii"))
         wit = {"text": text}
-        o, doc = runner.document_text(text, runner.make_settings(), title="T", module="modN0Z")
+        o, doc = runner.document_text(text, runner.make_settings(input=st_in), title="T", module="modN0Z")
         if not o.ok:
             res.violate(o.crash_class() or f"exit:{o.exit_code}", f"{type(o.exc).__name__}: {str(o.exc)[:300]}", wit)
             return res
